@@ -173,6 +173,13 @@ func (in *Interp) assume(st *State, cond ast.Expr, truth bool) {
 			case token.EQL:
 				add(a, b)
 				add(b, a)
+			case token.NEQ:
+				// x != 0 for a non-negative x: x >= 1
+				if b.IsZero() && a.NonNeg() {
+					add(Const(1), a)
+				} else if a.IsZero() && b.NonNeg() {
+					add(Const(1), b)
+				}
 			}
 		}
 	}
@@ -205,6 +212,10 @@ func (in *Interp) assumeNil(st *State, x *ast.BinaryExpr, truth bool) {
 			if fs, ok := st.ensures[ov.Path]; ok {
 				st.facts = append(st.facts, fs...)
 			}
+		}
+		// an error value known to be nil on this branch
+		if ov, isObj := st.vars[o].(ObjV); isObj && !nonNil && (strings.HasPrefix(ov.Path, "err:") || ov.Path == "error") {
+			st.vars[o] = NilV{}
 		}
 		if mv, ok := st.vars[o].(MaybeV); ok && nonNil {
 			st.vars[o] = mv.V
@@ -274,6 +285,9 @@ func proveD(d *Term, facts []Fact, branch string, depth int) (bool, []Fact) {
 	if d.NonNeg() {
 		return true, nil
 	}
+	if lb, ok := d.LowerBound(); ok && lb >= 0 {
+		return true, nil
+	}
 	// usable facts: unconditional ones and those of the branch under consideration
 	var fs []Fact
 	for _, f := range facts {
@@ -295,6 +309,17 @@ func proveD(d *Term, facts []Fact, branch string, depth int) (bool, []Fact) {
 		}
 	}
 	addRange(d)
+	// x <= round8(x) for every rounding atom in play
+	addRound := func(t *Term) {
+		t.HasAtom(func(a *Atom) bool {
+			if a.Kind == "round8" && !ranged["r8:"+a.Key()] {
+				ranged["r8:"+a.Key()] = true
+				fs = append(fs, Fact{L: a.Sub[0], R: FromAtom(a), Src: "x <= round8(x)"})
+			}
+			return false
+		})
+	}
+	addRound(d)
 	for _, f := range fs[:len(fs):len(fs)] {
 		if f.Src != "declared range" {
 			addRange(f.L)
